@@ -148,6 +148,10 @@ def _subtree(task):
     return n, ood, agree, hashes, viols.records(), sample
 
 
+def _long(sc):
+    return check_script(sc)
+
+
 def run(ctx):
     # (metadata variants, depth, menu) per phase; every phase is a complete enumeration
     if ctx.quick:
@@ -183,6 +187,33 @@ def run(ctx):
                 samples.append(sample)
         bounds.append({"metadata_variants": [A.METAS[m]["name"] for m in metas], "depth": depth, "menu": menu,
                        "menu_size_empty_env": len(evs0), "scripts": stats["evaluations"] - n0})
+    # long scripts: every menu event in ONE script, in every rotation of the statement order (state carried across
+    # many statements: counters, caches, accumulated modes)
+    longs = []
+    decls = list(A.DECLS)
+    env = {d[2] for d in decls}
+    has_empty = lambda e: e[0] == "stmt" and any(v == ("list", []) for _, v in e[3])
+    stmts = [e for e in events(env, ctx.tier) if e[0] not in ("decl", "arr") and not has_empty(e)]   # (empty lists hit finding F9 and would mask the rest)
+    step = 1 if not ctx.quick else 4
+    for r in range(0, len(stmts), step):
+        rot = stmts[r:] + stmts[:r]
+        for mi in (order[:2] if ctx.quick else order):
+            longs.append(dict(A.METAS[mi], items=decls + rot))
+    res = pool.pmap(_long, longs, chunk=2)
+    nlong = 0
+    for sc, r in zip(longs, res):
+        stats["evaluations"] += 1
+        nlong += 1
+        if r == "ood":
+            stats["out_of_domain"] += 1
+        elif r is None:
+            stats["agree"] += 1
+            distinct.add(hash(lang.render(sc)))
+        elif r == "TIMEOUT":
+            allv.add("C02/no-outcome", {"text": lang.render(sc)[:500], "ast": repr(sc)}, "timeout")
+        else:
+            allv.add(r[0] if r[0] == "C02/empty-list-keyword" else r[0] + ":long-script", {"text": lang.render(sc), "ast": repr(sc)}, r[1])
+    bounds.append({"family": "long scripts: all %d statement events of the menu in one script, every %s rotation" % (len(stmts), "4th" if ctx.quick else ""), "scripts": nlong})
     if not samples:
         samples = [lang.render(dict(A.METAS[0], items=[events(set(), ctx.tier)[9]]))]
     cov = {
